@@ -23,6 +23,68 @@ where
     }
 }
 
+/// Iterator-typed targets: exercise the iterator API itself (not only a forward drain) on every row's cell.
+/// Fresh iterator per operation: `nth(k)` for k in 0..=len+2 after j in 0..=3 `next()` calls, then a bounded drain;
+/// `size_hint`, `last`, `count`, `skip(k)`, `step_by(2)`. Every call must return (value, error or None); pulls are bounded
+/// by the announced length (capped) + 4.
+fn exercise_iter<'f, 'm, I>(rows: &'f DeserializedMetadataAndRawRows) -> u32
+where
+    'f: 'm,
+    I: Iterator,
+    (I,): DeserializeRow<'f, 'm>,
+{
+    let fresh = |r: usize| -> Option<I> { rows.rows_iter::<(I,)>().ok()?.nth(r)?.ok().map(|t| t.0) };
+    if rows.rows_iter::<(I,)>().is_err() {
+        return 0;
+    }
+    let nrows = rows.rows_count().min(3);
+    for r in 0..nrows {
+        let Some(first) = fresh(r) else { continue };
+        let len = first.size_hint().1.unwrap_or(0).min(48);
+        drop(first);
+        for j in 0..=len.min(3) {
+            for k in 0..=len + 2 {
+                let Some(mut it) = fresh(r) else { break };
+                for _ in 0..j {
+                    let _ = it.next();
+                }
+                let _ = it.nth(k);
+                let _ = it.size_hint();
+                for _ in 0..len + 4 {
+                    if it.next().is_none() {
+                        break;
+                    }
+                }
+                let _ = it.size_hint();
+            }
+        }
+        for k in 0..=len + 2 {
+            if let Some(it) = fresh(r) {
+                let _ = it.skip(k).next();
+            }
+            if let Some(mut it) = fresh(r) {
+                // nth twice in a row
+                let _ = it.nth(k / 2);
+                let _ = it.nth(k - k / 2);
+                let _ = it.next();
+            }
+        }
+        // (a collection may announce 2^31 elements and its iterator then yields that many errors: draining is the
+        //  consumer's cost, so `last` / `count` are bounded here like every other pull)
+        let bound = fresh(r).map(|it| it.size_hint().1.unwrap_or(0)).unwrap_or(0).min(crate::decode::MAX_ROWS_PULLED) + 4;
+        if let Some(it) = fresh(r) {
+            let _ = it.step_by(2).take(len + 2).count();
+        }
+        if let Some(it) = fresh(r) {
+            let _ = it.take(bound).last();
+        }
+        if let Some(it) = fresh(r) {
+            let _ = it.take(bound).count();
+        }
+    }
+    1
+}
+
 /// Returns how many targets passed type_check for this result's column types.
 pub fn run_typed(rows: &DeserializedMetadataAndRawRows) -> u32 {
     let ncols = rows.metadata().col_specs().len();
@@ -32,6 +94,20 @@ pub fn run_typed(rows: &DeserializedMetadataAndRawRows) -> u32 {
     }
     macro_rules! t2 {
         ($(($a:ty, $b:ty)),* $(,)?) => { $( n += try_one::<($a, $b)>(rows); )* };
+    }
+    if ncols == 1 {
+        use scylla_cql::deserialize::value::{ListlikeIterator, MapIterator, UdtIterator, VectorIterator};
+        n += exercise_iter::<ListlikeIterator<CqlValue>>(rows);
+        n += exercise_iter::<ListlikeIterator<i32>>(rows);
+        n += exercise_iter::<ListlikeIterator<String>>(rows);
+        n += exercise_iter::<MapIterator<CqlValue, CqlValue>>(rows);
+        n += exercise_iter::<MapIterator<String, i32>>(rows);
+        n += exercise_iter::<VectorIterator<CqlValue>>(rows);
+        n += exercise_iter::<VectorIterator<i32>>(rows);
+        n += exercise_iter::<VectorIterator<f32>>(rows);
+        n += exercise_iter::<VectorIterator<String>>(rows);
+        n += exercise_iter::<VectorIterator<Vec<i32>>>(rows);
+        n += exercise_iter::<UdtIterator>(rows);
     }
     match ncols {
         0 => {
